@@ -11,20 +11,22 @@ from vsym import engine as E
 from vsym import harness as H
 from vsym import astload
 from vsym import symstr as X
-from vsym.npproxy import NPProxy
+from vsym.npproxy import NPProxy, rebind
 
 PID = "C13"
 
 META = dict(
     level="other",
-    stubs=["file object -> chunk collector / list of symbolic lines", "float/int/str/range/re of bulk.py and writer.py shadowed by symbolic-aware versions "
+    stubs=["wtdmig: np.allclose -> its documented contract, decided where clear-cut (see assumptions); numbers format as a placeholder",
+           "file object -> chunk collector / list of symbolic lines", "float/int/str/range/re of bulk.py and writer.py shadowed by symbolic-aware versions "
            "(regex: matched on the text with every symbolic digit replaced by a placeholder digit; only digit-agnostic patterns are accepted)",
            "CPython float formatting -> exact scaled-integer rounding into symbolic digits (validated in C12)",
            "np.array/np.empty/astype on symbolic values -> object arrays (AST hook astype)"],
-    outside=["wtdmig/rddmig (pandas index machinery)", "wtgrids/rdgrids, rdcord2cards' build_coords step, uset2bulk/bulk2uset (DataFrame-based; their number fields are C12's subject); CORD2x cards are read back with rdcards (ids symbolic, A/B/C concrete)",
+    outside=["rddmig (pandas index machinery) and the number fields of wtdmig (placeholders: only the form decision and the entry selection are claimed)", "wtgrids/rdgrids, rdcord2cards' build_coords step, uset2bulk/bulk2uset (DataFrame-based; their number fields are C12's subject); CORD2x cards are read back with rdcards (ids symbolic, A/B/C concrete)",
              "INCLUDE handling"],
-    assumptions=["ids are 3-digit integers in [100, 899] (digit count does not fork); list lengths bounded as stated"],
-    reach_required=["cord2", "thru-run", "singleton", "line-wrap", "set-wrap", "tabled1-partial-line", "tabled1-short", "nasints-continuation"],
+    assumptions=["ids are 3-digit integers in [100, 899] (digit count does not fork); list lengths bounded as stated",
+                 "wtdmig: |entries| <= 10; np.allclose on complex entries is decided for identical entries (close) and for entries at least 0.01 apart in the 1-norm (not close); complex matrices with a pair of entries in between are not explored"],
+    reach_required=["dmig-form1", "dmig-form6", "cord2", "thru-run", "singleton", "line-wrap", "set-wrap", "tabled1-partial-line", "tabled1-short", "nasints-continuation"],
     trusted_base=["z3 5.1", "CPython 3.12", "digit-string model of float formatting (see C12)"],
 )
 
@@ -511,7 +513,147 @@ def replay_coord(p):
     return False, "CORD2x card fine on the real code"
 
 
-REPLAY = {"ids": replay_ids, "tabled1": replay_tabled1, "coord": replay_coord}
+# ---------------------------------------------------------------------------
+# wtdmig: the symmetric half storage (form 6) is chosen only for matrices that equal their transpose
+
+class _FR(S.SymR):
+    __slots__ = ()
+
+    def __format__(s, spec):
+        return format(1.0, spec)
+
+    __hash__ = S.SymR.__hash__
+
+
+class _FC(S.SymC):
+    """complex symbolic entry whose parts format as a placeholder number (the number field is C12's subject)"""
+    __slots__ = ()
+
+    @property
+    def real(s):
+        return _FR(s.re)
+
+    @property
+    def imag(s):
+        return _FR(s.im)
+
+    def conjugate(s):
+        return _FC(s.re, -s.im)
+
+    conj = conjugate
+    __hash__ = S.SymC.__hash__
+
+
+class NPD(NPProxy):
+    def allclose(self, a, b, rtol=1e-05, atol=1e-08, equal_nan=False):
+        """numpy's contract: all(|a - b| <= atol + rtol |b|)"""
+        eng = S.eng()
+        a, b = np.asarray(a, dtype=object), np.asarray(b, dtype=object)
+        ok = True
+        for x, y in zip(a.ravel(), b.ravel()):
+            d = x - y
+            if not isinstance(d, S.SymC):
+                if S.is_sym(d):
+                    ok = ok and bool(abs(d) <= atol + rtol * abs(y))
+                else:
+                    ok = ok and abs(d) <= atol + rtol * abs(y)
+                continue
+            # decided where it is clear-cut: identical entries are close; entries at least 0.01 apart (1-norm; the tolerance is
+            # below 2.1e-4 for |entries| <= 10) are not; the band in between is dropped from the exploration (see assumptions)
+            ab = lambda e: z3.If(e >= 0, e, -e)
+            if eng.decide(z3.And(d.re == 0, d.im == 0)):
+                continue
+            if eng.decide(ab(d.re) + ab(d.im) >= z3.RealVal("0.01")):
+                ok = False
+                continue
+            raise E.PathAbort()
+        return ok
+
+    def iscomplexobj(self, a):
+        if isinstance(a, np.ndarray) and a.dtype == object:
+            return any(isinstance(v, S.SymC) for v in a.ravel())
+        return np.iscomplexobj(a)
+
+
+def dmig_fn(n, cplx):
+    def fn(eng):
+        S.set_engine(eng)
+        import pandas as pd
+        import pyyeti.nastran.bulk as b
+        f = rebind([getattr(b.wtdmig, "__wrapped__", b.wtdmig)], dict(np=NPD()))["wtdmig"]
+        info = dict(which="dmig", n=n, cplx=cplx)
+        M = np.empty((n, n), dtype=object)
+        Z = {}
+        for i in range(n):
+            for j in range(n):
+                re, im = z3.Real("re%d_%d" % (i, j)), z3.Real("im%d_%d" % (i, j))
+                eng.assume(z3.And(re >= -10, re <= 10, im >= -10, im <= 10))
+                if not cplx:
+                    eng.assume(im == 0)
+                M[i, j] = _FC(re, im) if cplx else _FR(re)
+                Z[(i, j)] = (re, im)
+        ids = pd.MultiIndex.from_tuples([(10 + i, 1 + (i % 3)) for i in range(n)])
+        df = pd.DataFrame(M, index=ids, columns=ids)
+        sink = _Sink()
+        try:
+            f(sink, {"kaa": df})
+        except E.Inconclusive:
+            raise
+        except Exception as ex:
+            import traceback
+            return [E.Obl("wtdmig raises %r (%s)" % (ex, traceback.format_exc()[-300:]), False, info=info)]
+        lines = ["".join(str(c) for c in X._cells(l)) if isinstance(l, X.SymStr) else str(l) for l in sink.lines()]
+        form = int(lines[0][24:32])
+        eng.tag("dmig-form%d" % form)
+        obls = [E.Obl("wtdmig: square matrix is written as form 1 or 6 (%d)" % form, form in (1, 6), info=info)]
+        rt, at = z3.RealVal(Fraction(1e-05)), z3.RealVal(Fraction(1e-08))
+        if form == 6:
+            for i in range(n):
+                for j in range(i):
+                    (a, b_), (c, d) = Z[(i, j)], Z[(j, i)]
+                    ab = lambda e: z3.If(e >= 0, e, -e)
+                    lim = at + rt * (ab(a) + ab(b_))          # >= atol + rtol |m[i,j]|
+                    obls.append(E.Obl("wtdmig: symmetric half storage (form 6) only when m[%d,%d] equals m[%d,%d] (to allclose's tolerance): "
+                                      "the reader mirrors the stored triangle" % (j, i, i, j), (a - c) * (a - c) + (b_ - d) * (b_ - d) <= lim * lim, info=info))
+        # which entries were written
+        written = set()
+        col = None
+        gid = {10 + i: i for i in range(n)}
+        for ln in lines[1:]:
+            if ln.startswith("DMIG*"):
+                col = gid[int(ln[24:40])]
+            elif ln.startswith("*"):
+                written.add((gid[int(ln[8:24])], col))
+        for i in range(n):
+            for j in range(n):
+                if form == 6 and i < j:
+                    obls.append(E.Obl("wtdmig form 6: upper-triangle entry (%d,%d) is not written" % (i, j), (i, j) not in written, info=info))
+                    continue
+                nz = z3.Or(Z[(i, j)][0] != 0, Z[(i, j)][1] != 0)
+                obls.append(E.Obl("wtdmig: entry (%d,%d) is written iff it is non-zero" % (i, j), nz if (i, j) in written else z3.Not(nz), info=info))
+        return obls
+    return fn
+
+
+def replay_dmig(p):
+    import io
+    import pandas as pd
+    import pyyeti.nastran.bulk as b
+    n, mdl = p["n"], p["model"]
+    g = lambda k: float(Fraction(mdl.get(k, 0) or 0))
+    M = np.array([[complex(g("re%d_%d" % (i, j)), g("im%d_%d" % (i, j))) for j in range(n)] for i in range(n)])
+    if not p["cplx"]:
+        M = M.real
+    ids = pd.MultiIndex.from_tuples([(10 + i, 1 + (i % 3)) for i in range(n)])
+    f = io.StringIO()
+    b.wtdmig(f, {"kaa": pd.DataFrame(M, index=ids, columns=ids)})
+    back = b.rddmig(io.StringIO(f.getvalue()))["kaa"].reindex(index=ids, columns=ids).fillna(0).values
+    if back.shape != M.shape or not np.allclose(back, M, rtol=1e-4, atol=1e-7):
+        return True, "wtdmig/rddmig of %s gives %s" % (M.tolist(), np.asarray(back).tolist())
+    return False, "DMIG round trip fine on the real code"
+
+
+REPLAY = {"dmig": replay_dmig, "ids": replay_ids, "tabled1": replay_tabled1, "coord": replay_coord}
 
 
 def job(kind, *args, split_depth=None, roots=None):
@@ -529,6 +671,9 @@ def job(kind, *args, split_depth=None, roots=None):
     elif kind == "coord":
         fn = coord_fn(*args)
         which = "coord"
+    elif kind == "dmig":
+        fn = dmig_fn(*args)
+        which = "dmig"
     else:
         fn = tabled1_fn(*args)
         which = "tabled1"
@@ -544,7 +689,7 @@ def job(kind, *args, split_depth=None, roots=None):
         d = dict(info)
         d["model"] = c["model"]
         return d
-    rk = which if which in ("tabled1", "coord") else "ids"
+    rk = which if which in ("tabled1", "coord", "dmig") else "ids"
     H.triage(res, rk, REPLAY[rk], payload)
     return res
 
@@ -561,6 +706,10 @@ def jobs(tier, seed):
         out.append(H.Job("set-%d-%d" % (L, ml), job, "set", L, ml, weight=2 ** L))
     for nm in CORD_ABC:
         out.append(H.Job("coord-%s" % nm, job, "coord", nm, weight=5))
+    out.append(H.Job("dmig-2-complex", job, "dmig", 2, True, weight=20))
+    out.append(H.Job("dmig-2-real", job, "dmig", 2, False, weight=10))
+    if not q:
+        out.append(H.Job("dmig-3-real", job, "dmig", 3, False, split_depth=6, weight=100))
     out.append(H.Job("tabled1-small", job, "tabled1", "small", 6 if q else 9, weight=200))
     out.append(H.Job("tabled1-large", job, "tabled1", "large", 4 if q else 7, weight=200))
     return out
@@ -570,6 +719,6 @@ def extra_coverage(results):
     import pyyeti.nastran.bulk as b
     import pyyeti.writer as w
     fns = [b._find_sequence, b._wt_with_thru, b.wtspoints, b.rdspoints, b.wtxset1, b.wtspc1, b.wtnasints, b.wtcsuper, b.rdcsupers, b.wtextrn, b.rdextrn,
-           b.wtset, b._wrap_text_lines, b.rdsets, b._rdset, b._rd_set_line, b.wttabled1, b.rdtabled1, b.wtcoordcards, b.rdcards, b._rdfixed, b.wtcard8, w.vecwrite, w._vecwrite]
+           b.wtset, b._wrap_text_lines, b.rdsets, b._rdset, b._rd_set_line, b.wttabled1, b.rdtabled1, b.wtcoordcards, b.wtdmig, b.rdcards, b._rdfixed, b.wtcard8, w.vecwrite, w._vecwrite]
     return dict(functions_encoded=[H.fn_id(getattr(f, "__wrapped__", f)) for f in fns],
                 ast_hook_hits={"%s:%s" % k: v for k, v in astload.HITS.items()})
